@@ -4,6 +4,7 @@ CONSTANTS
   Modes = {"design", "impl"}
   MaxHops = 3
   Statuses = {400, 401, 403, 404, 416, 418, 429, 500, 503, 599}
+  SweepStatuses <- SweepAll
   Kinds = {"GET", "HEAD", "PUT", "DELETE", "LIST"}
   Export = FALSE
 INVARIANTS StatusPerTable IsPreserved CellsExact CodePreserved DetailPreserved HeadLaw MessageFixedPoint FirstHopMessage
